@@ -20,7 +20,7 @@ ASSUMPTIONS = [
     "generators of unfinished tasks are kept alive until the history ends (GC timing is not part of the property)",
 ]
 MENU = ["ins:raise", "item:err", "item:unset", "flush:raise", "flush:raiseB", "leaf:lzraise", "leaf:lzok", "leaf:ef",
-        "leaf:nf", "wrap:N", "wrap:Xp", "wrap:Xr", "wrap:A", "ins:sync", "wrap:try", "ins:probe", "ins:iv"]
+        "leaf:nf", "wrap:N", "wrap:Xp", "wrap:Xr", "wrap:Xq", "wrap:A", "ins:sync", "wrap:try", "ins:probe", "ins:iv"]
 CATS = ["active-task", "active-task-after", "scheduler-residue", "scheduler-str", "stale-task-ran",
         "canary-differs", "canary-stale-batch-flushed", "hang", "worker-died"]
 GUARD_CATS = [c for c in CATS if c != "active-task"]
